@@ -99,3 +99,70 @@ Print Assumptions C13_text_front.
 Print Assumptions C13_text.
 Print Assumptions C13_text_records.
 Print Assumptions C13_text_rejected.
+
+(** The patch of a program, included back, rebuilds the program's image (C11 + C12 + C13 composed).
+    For every block list the IPS writer accepts, the file it writes reads back (with delta = minus
+    the copier-header shift) as records that, applied in order, give the same image as the blocks —
+    blocks above 0xFFFF bytes come back in pieces, empty blocks not at all; the one-line program
+    [.include_ips 'p', delta] hands the writer exactly those records and nothing of its own; so
+    assembling a program as a patch and including that patch (AST level, and on source text through
+    the whole pipeline) yields the program's SFC image. *)
+From A816 Require Import Proofs.PatchRoundTrip.
+
+Theorem C13_patch_blocks_read_back : forall copier blocks file delta,
+  ips_write copier blocks = Ok file ->
+  Forall (fun b => snd b <> [] -> 0 <= fst b + shift copier + delta) blocks ->
+  exists rs recs,
+    tiles_seq (shift_blocks copier blocks) rs /\ Forall wf_record rs /\ file = ips_file rs /\
+    read_ips delta file = Ok recs /\ recs = records_blocks delta rs /\
+    forall img, apply_writes recs img = apply_writes (moved (shift copier + delta) blocks) img.
+Proof. exact patch_blocks_read_back. Qed.
+
+Theorem C13_patch_blocks_roundtrip : forall copier blocks file,
+  ips_write copier blocks = Ok file ->
+  Forall (fun b => snd b <> [] -> 0 <= fst b) blocks ->
+  exists recs, read_ips (- shift copier) file = Ok recs /\
+    forall img, apply_writes recs img = apply_writes blocks img.
+Proof. exact patch_blocks_roundtrip. Qed.
+
+Theorem C13_patch_blocks_sfc : forall copier blocks file im,
+  ips_write copier blocks = Ok file -> sfc_image blocks = Ok im ->
+  exists recs, read_ips (- shift copier) file = Ok recs /\ sfc_image recs = Ok im.
+Proof. exact patch_blocks_sfc. Qed.
+
+Theorem C13_include_only_program : forall w c ri path e fi delta bl,
+  initial_resolver w c = Ok ri ->
+  (forall r, eval_raw w r e = Ok delta) -> w_ips w path delta = Ok bl ->
+  exists oP o0,
+    assemble_program w c [AIncludeIps path e fi] = AOk oP (o_final oP) /\ writer_blocks oP = bl /\
+    assemble_program w c [] = AOk o0 (o_final o0) /\ o_blocks o0 = [] /\
+    o_labels oP = o_labels o0 /\ o_final oP = o_final o0.
+Proof. exact include_only_program. Qed.
+
+Theorem C13_patch_program_roundtrip : forall w c ri path e fi copier blocks file im,
+  initial_resolver w c = Ok ri ->
+  (forall r, eval_raw w r e = Ok (- shift copier)) ->
+  (forall d, w_ips w path d = read_ips d file) ->
+  ips_write copier blocks = Ok file -> sfc_image blocks = Ok im ->
+  exists oP, assemble_program w c [AIncludeIps path e fi] = AOk oP (o_final oP) /\
+    read_ips (- shift copier) file = Ok (writer_blocks oP) /\
+    sfc_image (writer_blocks oP) = Ok im.
+Proof. exact patch_program_roundtrip. Qed.
+
+Theorem C13_patch_text_roundtrip : forall t fs c fname k1 path k2 sp e copier cQ b b' oQ file im,
+  tables_ok t c -> xstmt_ok (lv_lex t) (XIps k1 path k2 sp e) -> wf e -> eval noenv e = Ok (- shift copier) ->
+  assoc_str (sf_bin fs) path = Some file ->
+  output_file {| fc_format := FIps; fc_copier := copier; fc_config := cQ |} oQ = Ok file ->
+  output_file {| fc_format := FSfc; fc_copier := b; fc_config := cQ |} oQ = Ok im ->
+  exists oP finP,
+    assemble_source t fs c fname (xsrc [XIps k1 path k2 sp e]) = AOk oP finP /\
+    read_ips (- shift copier) file = Ok (writer_blocks oP) /\
+    output_file {| fc_format := FSfc; fc_copier := b'; fc_config := c |} oP = Ok im.
+Proof. exact patch_text_roundtrip. Qed.
+
+Print Assumptions C13_patch_blocks_read_back.
+Print Assumptions C13_patch_blocks_roundtrip.
+Print Assumptions C13_patch_blocks_sfc.
+Print Assumptions C13_include_only_program.
+Print Assumptions C13_patch_program_roundtrip.
+Print Assumptions C13_patch_text_roundtrip.
